@@ -389,7 +389,10 @@ def _generic(m: BufferMachine, op, vals, core):
     desc = f"linalg.generic#{tag}"
     core.hist.append(("op", tag))
     read = [("scalar", x) for x in scalars]
-    for v in ins:
+    # an output whose block argument is used by the body (accumulation) is read as well
+    n_in = len(op.inputs)
+    acc_outs = [v for v, arg in zip(outs, op.body.block.args[n_in:]) if arg.uses]
+    for v in ins + acc_outs:
         idxs = list(v.indices())
         for ch in m.chunks(idxs):
             for i in ch:
